@@ -19,11 +19,13 @@ VERIF_FAIL_PATTERNS = [
 ]
 
 
-def run(path, rlimit=None, multiple_errors=5, threads=8, timeout=600):
+def run(path, rlimit=None, multiple_errors=5, threads=8, timeout=600, seed=None):
     cmd = [VERUS, os.path.basename(path), '--output-json', '--time-expanded', '--error-format=json',
            '--multiple-errors', str(multiple_errors), '--num-threads', str(threads), '--triggers-mode', 'silent']
     if rlimit:
         cmd += ['--rlimit', str(rlimit)]
+    if seed is not None:
+        cmd += ['--smt-option', 'smt.random_seed=%d' % seed]
     t0 = time.time()
     try:
         p = subprocess.run(cmd, cwd=os.path.dirname(path), stdout=subprocess.PIPE, stderr=subprocess.PIPE,
